@@ -380,7 +380,7 @@ func c13Config(tier string, variant int) *xgram.GenConfig {
 		MaxDepth: 3, MinTerms: 2, MaxTerms: 4, MinNonterms: 1, MaxNonterms: 6, MaxAlts: 3, MaxParts: 4,
 		WOpt: 12, WChoice: 10, WStar: 8, WPlus: 8, WList: 10, WSeq: 1,
 		WSet: 5, WLook: 3, WMarker: 3, WCmd: 3, WOptRef: 4,
-		Arrows: true, Assigns: true, Extend: true, SimpleSets: true, CollidingSets: true, MaxExpand: 64, AllowNoEoi: true,
+		Arrows: true, Assigns: true, Extend: true, SimpleSets: true, CollidingSets: true, Targets: true, MaxExpand: 64, AllowNoEoi: true,
 	}
 	if tier == "thorough" {
 		cfg.MaxDepth = 5
@@ -423,7 +423,7 @@ func init() {
 	const batch = 25
 	fw.Register(&fw.Check{
 		ID: "C13",
-		Rule: "each case is a batch of 25 random template-free grammars over 2-4 terminals and 1-6 nonterminals (three generator profiles: mixed, densely nested, list heavy) using optionals, nested choices, */+ lists, lists with 1-2 separator terminals, parenthesised groups, opt-suffix references, set(...) over terminals (with | & ~; every third compile-path grammar also gets 2-3 in-rule sets that are different bracketings of one operand/operator sequence, i.e. differ in value but not in a spelling without parentheses), lookahead markers, state markers or commands, arrows, assignments, extend clauses, several inputs incl. no-eoi; " +
+		Rule: "each case is a batch of 25 random template-free grammars over 2-4 terminals and 1-6 nonterminals (three generator profiles: mixed, densely nested, list heavy) using optionals, nested choices, */+ lists, lists with 1-2 separator terminals, parenthesised groups, opt-suffix references, set(...) over terminals (with | & ~; every third compile-path grammar also gets 2-3 in-rule sets that are different bracketings of one operand/operator sequence, i.e. differ in value but not in a spelling without parentheses), lookahead markers, state markers or commands, arrows, assignments, extend clauses, several inputs incl. no-eoi; about half of the compile-path grammars use the cc or ts target header with {type} annotations on some terminals and nonterminals (typed symbols make the compiler add list/optional value actions); " +
 			"20 of 25 are printed as .tm text and run through compiler.Compile, 5 of 25 are built as syntax.Model (the only way to mark lists right-recursive) and run through syntax.Expand; for every nonterminal the set of terminal strings up to length 5-8 (by alphabet size) derived from the observed plain rules must equal the set derived from an independent naive desugaring; " +
 			"a grammar is non-trivial when it uses at least two different extended forms and its first input derives at least 3 words within the bound; distinctness by grammar text",
 		Assumptions: []string{
@@ -446,6 +446,13 @@ func init() {
 					g = xgram.Generate(r, c13ModelConfig(c.Tier))
 				} else {
 					g = xgram.Generate(r, c13Config(c.Tier, (c.Case+i)%3))
+				}
+				if !modelPath {
+					t := g.Target
+					if t == "" {
+						t = "go"
+					}
+					c.Count("target_"+t, 1)
 				}
 				if g.Colliding > 0 {
 					c.Count("grammars_with_same_spelling_sets", 1)
@@ -478,6 +485,6 @@ func init() {
 			}
 		},
 		MinNontrivial:    func(tier string) int { return map[string]int{"thorough": 3500}[tier] + 250 },
-		RequiredCounters: []string{"compile_path_grammars", "model_path_grammars", "feature_rr", "feature_seplist", "feature_set", "feature_lookahead", "feature_optref", "feature_choice", "feature_opt", "grammars_with_lalr_conflicts", "grammars_conflict_free", "words_compared", "grammars_with_same_spelling_sets"},
+		RequiredCounters: []string{"compile_path_grammars", "model_path_grammars", "feature_rr", "feature_seplist", "feature_set", "feature_lookahead", "feature_optref", "feature_choice", "feature_opt", "grammars_with_lalr_conflicts", "grammars_conflict_free", "words_compared", "grammars_with_same_spelling_sets", "target_go", "target_cc", "target_ts"},
 	})
 }
